@@ -159,6 +159,17 @@ func Build(net nk.Net, sc Scenario) (*Tree, error) {
 			}
 			own := nk.MakeTx(nk.TxSpec{From: 1, Nonce: h, To: nk.UserAddrs[3], Amount: big.NewInt(int64(100 + i)), Type: types.TxType_TRANSFER}, cid)
 			txs = []*types.Tx{s, own}
+			// blocks with an odd index also carry a tx of a third account (C), so that some
+			// accounts are touched by one branch only and not by the first block of the other
+			if i%2 == 1 {
+				cn := uint64(1)
+				for a := par.Idx; a > 0; a = t.Blocks[a].Parent {
+					if a%2 == 1 {
+						cn++
+					}
+				}
+				txs = append(txs, nk.MakeTx(nk.TxSpec{From: 2, Nonce: cn, To: nk.UserAddrs[3], Amount: big.NewInt(int64(7)), Type: types.TxType_TRANSFER}, cid))
+			}
 		}
 		if sc.Flavour == "ctr" {
 			// contract storage along forks: every block of height 1 deploys the same contract
@@ -195,7 +206,7 @@ func Build(net nk.Net, sc Scenario) (*Tree, error) {
 		}
 		if bad == "badtx" {
 			// a transfer signed with the wrong key (tx root stays consistent)
-			forged := nk.MakeTx(nk.TxSpec{From: 2, Nonce: 1, To: nk.UserAddrs[3], Amount: big.NewInt(7), Type: types.TxType_TRANSFER, SignWith: 3}, cid)
+			forged := nk.MakeTx(nk.TxSpec{From: 3, Nonce: 1, To: nk.UserAddrs[0], Amount: big.NewInt(7), Type: types.TxType_TRANSFER, SignWith: 2}, cid)
 			txs = append(txs, forged)
 		}
 		// honest production on the honest parent state
@@ -383,14 +394,27 @@ type Replay struct {
 }
 
 // RunHistory replays hist on a fresh node, then delivers ev, and applies the oracle.
+// Hooks lets a check attach a component to every replayed node (C04 attaches a real mempool
+// that consumes the MemPoolDel / MemPoolPut messages of every delivery).
+var Hooks struct {
+	Start func(t *Tree, n *nk.Node)
+	After func(t *Tree, n *nk.Node, msgs []nk.Msg)
+}
+
 func RunHistory(t *Tree, hist []int, ev int, oracle Oracle) (pre, post *Obs, sig, desc string, e error) {
 	n, err := nk.NewNode(t.Net, freshName("n"))
 	if err != nil {
 		return nil, nil, "", "", fmt.Errorf("NewNode: %v", err)
 	}
 	defer func() { n.Stop(); n.Drop() }()
+	if Hooks.Start != nil {
+		Hooks.Start(t, n)
+	}
 	for _, i := range hist {
 		_ = n.Deliver(t.Blocks[i].Block)
+		if Hooks.After != nil {
+			Hooks.After(t, n, n.TakeMsgs())
+		}
 	}
 	pre = observe(t, n)
 	if ev < 0 {
@@ -398,6 +422,9 @@ func RunHistory(t *Tree, hist []int, ev int, oracle Oracle) (pre, post *Obs, sig
 	}
 	derr := n.Deliver(t.Blocks[ev].Block)
 	post = observe(t, n)
+	if Hooks.After != nil {
+		Hooks.After(t, n, post.Msgs)
+	}
 	if oracle != nil {
 		sig, desc = oracle(t, n, hist, ev, pre, post, derr)
 	}
